@@ -92,6 +92,9 @@ def _other(cfg):
           setattr(b, p.name, 'first-argument')
           break
   for c in objs.get('container', {}).values():
+    if isinstance(c, dict) and len(c) >= 2:
+      del c[list(c)[-1]]          # a key that only the first configuration has
+      continue
     if type(c) is dict and not c:
       c['first-key'] = 1
     elif type(c) is list and not c:
@@ -244,7 +247,8 @@ def run_main(spec, acc):
     use_pos = rng.random() < 0.3
     opts = gen.Opts(max_nodes=rng.choice([3, 6, 10]), max_depth=4, p_share=0.35, p_clone=0.1,
                     btypes=['Config', 'Config', 'Partial'], fns=FNS + (POS_FNS if use_pos else []),
-                    lattice=0.05, leaves=LEAVES, containers=['list', 'tuple', 'dict', 'point'],
+                    lattice=0.05, leaves=LEAVES,
+                    containers=['list', 'tuple', 'dict', 'point'] + (['defaultdict', 'dict'] if rng.random() < 0.3 else []),
                     tagged_values=rng.random() < 0.3, explicit_tags=0.4, uid=False,
                     dict_keys=['k', 'j', 'a b', 3])
     g = gen.DagGen(rng, opts)
